@@ -38,6 +38,8 @@ def signature(c):
     """structured signature of an oracle failure (for known_findings matching)"""
     o = c["oracle"]
     sig = {"kind": o.split(":")[0]}
+    if o.startswith("accepted-with-unexpected-member"):
+        sig["members"] = sorted(set(m["name"] for m in (c.get("members") or [])))[:6]
     if o.startswith("accepted-without-member:"):
         sig["member"] = o.split(":", 1)[1]
         sig["orig_state_empty"] = (c["orig_state_len"] == 0)
@@ -101,7 +103,7 @@ def run(ctx):
             new_fail.append(c)
     for c in new_fail[:5]:
         ctx.violation({"kind": "oracle", "reason": c["oracle"], "mutation": c["kind"], "gz": c["gz"],
-                       "archive": c["archive"], "expect": c["expect"], "signature": signature(c),
+                       "archive": c.get("archive", ""), "expect": c["expect"], "signature": signature(c),
                        "replay_cmd": "build/bin/archive -replay <this file>"})
     if mism and not new_fail:
         # correspondence broken, no failing input found by the oracle on any generated archive
